@@ -841,6 +841,10 @@ func (gqm *GroupQuotaManager) MigratePod(pod *v1.Pod, out, in string) {
 	gqm.hierarchyUpdateLock.Lock()
 	defer gqm.hierarchyUpdateLock.Unlock()
 
+	gqm.migratePodNoLock(pod, out, in)
+}
+
+func (gqm *GroupQuotaManager) migratePodNoLock(pod *v1.Pod, out, in string) {
 	isAssigned := gqm.getPodIsAssignedNoLock(out, pod)
 	gqm.updatePodRequestNoLock(out, pod, nil)
 	if isAssigned {
@@ -1023,6 +1027,11 @@ func (gqm *GroupQuotaManager) ReservePod(quotaName string, p *v1.Pod) {
 	defer gqm.hierarchyUpdateLock.Unlock()
 
 	quotaInfo := gqm.getQuotaInfoByNameNoLock(quotaName)
+	if holdingQuotaName := gqm.getQuotaNameHoldingPodNoLock(quotaName, p); quotaInfo != nil && holdingQuotaName != quotaName {
+		// the pod is still parked in the default quota although its own quota exists now, move it first so that it is
+		// charged to the quota it has been admitted against.
+		gqm.migratePodNoLock(p, holdingQuotaName, quotaName)
+	}
 	if quotaInfo == nil || !quotaInfo.IsPodExist(p) || quotaInfo.CheckPodIsAssigned(p) {
 		return
 	}
@@ -1040,6 +1049,7 @@ func (gqm *GroupQuotaManager) UnreservePod(quotaName string, p *v1.Pod) {
 	gqm.hierarchyUpdateLock.Lock()
 	defer gqm.hierarchyUpdateLock.Unlock()
 
+	quotaName = gqm.getQuotaNameHoldingPodNoLock(quotaName, p)
 	quotaInfo := gqm.getQuotaInfoByNameNoLock(quotaName)
 	if quotaInfo == nil || !quotaInfo.IsPodExist(p) || !quotaInfo.CheckPodIsAssigned(p) {
 		return
